@@ -24,6 +24,8 @@ partial def coreTy : Sexp → Option Ty
   | .list [.atom "arr", n, t] => do some (.arr (← atomN? n) (← coreTy t))
   | .list [.atom "opt", t] => do some (.opt (← coreTy t))
   | .list [.atom "struct", n] => do some (.struct (← atomN? n))
+  | .list [.atom "enum", n] => do some (.enum (← atomN? n))
+  | .list [.atom "eu", e, p] => do some (.errUnion (← coreTy e) (← coreTy p))
   | _ => none
 
 def coreBinOp : String → Option BinOp
@@ -60,6 +62,14 @@ partial def coreExpr : Sexp → Option Expr
   | .list [.atom "unwrap", a] => do some (.unwrap (← coreExpr a))
   | .list [.atom "issome", a] => do some (.isSome (← coreExpr a))
   | .list [.atom "ite", c, a, b] => do some (.ite (← coreExpr c) (← coreExpr a) (← coreExpr b))
+  | .list [.atom "variant", k] => do some (.variantLit (← atomN? k) none)
+  | .list [.atom "variant", k, a] => do some (.variantLit (← atomN? k) (some (← coreExpr a)))
+  | .list [.atom "isvariant", k, a] => do some (.isVariant (← atomN? k) (← coreExpr a))
+  | .list [.atom "unwrapv", k, a] => do some (.unwrapVariant (← atomN? k) (← coreExpr a))
+  | .list [.atom "eulit", .atom b, a] => do some (.euLit (b == "1") (← coreExpr a))
+  | .list [.atom "euisok", a] => do some (.euIsOk (← coreExpr a))
+  | .list [.atom "euunwrap", .atom b, a] => do some (.euUnwrap (b == "1") (← coreExpr a))
+  | .list [.atom "try", a] => do some (.tryE (← coreExpr a))
   | _ => none
 partial def coreExprs : List Sexp → Option (List Expr)
   | [] => some []
@@ -91,6 +101,19 @@ partial def coreStmt : Sexp → Option Stmt
   | .list [.atom "ret", e] => do some (.ret (some (← coreExpr e)))
   | .list [.atom "defer", s] => do some (.deferS (← coreStmt s))
   | .list [.atom "expr", e] => do some (.exprS (← coreExpr e))
+  | .list (.atom "switch" :: scrut :: .atom arg :: rest) => do
+      let a : Option Nat := if arg = "-" then none else arg.toNat?
+      let (arms, dflt) ← coreArms rest
+      some (.switchS (← coreExpr scrut) a arms dflt)
+  | _ => none
+partial def coreArms : List Sexp → Option (List (Nat × List Stmt) × Option (List Stmt))
+  | [] => some ([], none)
+  | .list (.atom "arm" :: k :: body) :: rest => do
+      let (arms, d) ← coreArms rest
+      some ((← atomN? k, ← coreStmts body) :: arms, d)
+  | .list (.atom "default" :: body) :: rest => do
+      let (arms, _) ← coreArms rest
+      some (arms, some (← coreStmts body))
   | _ => none
 partial def coreStmts : List Sexp → Option (List Stmt)
   | [] => some []
